@@ -35,12 +35,19 @@
 (* PSrcInj      VInjectPayloadSource -> 9, injects b = 7 (collision fails) *)
 (* ProbeP       VScaleProbe: ctx[k1] := value * factor (factor = 1)        *)
 (* Touch        VTouchOperation: identity that logs its invocation         *)
+(* MulKw        VKwScale: value * factor, `factor` a KEYWORD-ONLY parameter *)
+(*              (def _process_logic(self, data, *, factor=2.0)); MulKwReq   *)
+(*              the same without default                                    *)
 (* CtxWP        VCtxScaleWrite: returns value * factor, writes w := result  *)
 (* SliceCtxW    slice:VCtxScaleWrite:FloatDataCollection (per item; the     *)
 (*              last item's write is what remains under w)                  *)
 (* CtxBind      VCtxBump with parameters {context_key: k2} (a context      *)
 (*              processor whose output key is bound per node): ctx[k2] :=  *)
 (*              a + 1 where a is the parameter named "a"                   *)
+(* FitM         ModelFittingContextProcessor with the variable mapping     *)
+(*              {independent_var_key: t_values, dependent_var_key: a} and   *)
+(*              fitting_model model:VSumModel: ctx[k2] := sum(a) + len(t_values) *)
+(*              (k2 = "": the default output key "fit.parameters")          *)
 (* IncIP        VInPlaceIncrement: adds 1 to the payload in place and      *)
 (*              returns the object it received                             *)
 (* SweepCtxW    sweep over VCtxScaleWrite, parameters {factor: t}: one      *)
@@ -49,7 +56,7 @@
 EXTENDS Values
 
 \* "a.b" / "a_b": key names that differ only in a character that class-name sanitisation folds together
-Keys == {"value", "factor", "addend", "a", "b", "w", "t_values", "a.b", "a_b"}
+Keys == {"value", "factor", "addend", "a", "b", "w", "t_values", "a.b", "a_b", "fit.parameters"}
 
 Node(kind, cfg, k1, k2, sw) == [kind |-> kind, cfg |-> cfg, k1 |-> k1, k2 |-> k2, sw |-> sw]
 N0(kind)          == Node(kind, <<>>, "", "", <<>>)
@@ -60,30 +67,32 @@ WithBogus(n)      == [n EXCEPT !.cfg = [x \in (DOMAIN n.cfg) \cup {"bogus"} |->
                                            IF x \in DOMAIN n.cfg THEN n.cfg[x] ELSE 1]]
 
 SourceKinds  == {"Src", "SrcDef", "Src0", "SweepSrc", "SweepSrcCtx", "PSrc", "PSrcInj"}
-FloatInKinds == {"Mul", "MulDef", "Add", "Sq", "Probe", "ProbeP", "Sink", "PSink", "Touch", "CtxW", "CtxWBad", "Boom", "Abort", "SweepMul",
+FloatInKinds == {"Mul", "MulDef", "MulKw", "MulKwReq", "Add", "Sq", "Probe", "ProbeP", "Sink", "PSink", "Touch", "CtxW", "CtxWBad", "Boom", "Abort", "SweepMul",
                  "CtxWP", "SweepCtxW", "IncIP"}
 CollInKinds  == {"SliceMul", "SliceMulDef", "SliceProbe", "Sum", "SliceCtxW"}
-CtxKinds     == {"Rename", "Delete", "Template", "CtxBind"}
+CtxKinds     == {"Rename", "Delete", "Template", "CtxBind", "FitM"}
+FitKey(n)    == IF n.k2 = "" THEN "fit.parameters" ELSE n.k2
 ProbeKinds   == {"Probe", "SliceProbe", "ProbeP"}
 SweepKinds   == {"SweepSrc", "SweepMul", "SweepSrcCtx", "SweepCtxW"}
 PassKinds    == ProbeKinds \cup {"Sink", "PSink"} \cup CtxKinds      \* data passes through unchanged
 
 ParamNames(n) ==
     CASE n.kind \in {"Src", "SrcDef"}                          -> {"value"}
-      [] n.kind \in {"Mul", "MulDef", "SliceMul", "SliceMulDef", "CtxWP", "SliceCtxW"} -> {"factor"}
+      [] n.kind \in {"Mul", "MulDef", "MulKw", "MulKwReq", "SliceMul", "SliceMulDef", "CtxWP", "SliceCtxW"} -> {"factor"}
       [] n.kind = "Add"                                        -> {"addend"}
       [] n.kind = "ProbeP"                                     -> {"factor"}
       [] n.kind = "CtxBind"                                    -> {"a"}
+      [] n.kind = "FitM"                                       -> {"t_values", "a"}
       [] n.kind \in CtxKinds                                   -> {n.k1}
       [] n.kind = "SweepSrcCtx"                                -> {n.k1}
       [] OTHER                                                 -> {}
 
 HasDefault(n, p) == \/ n.kind = "SrcDef" /\ p = "value"
-                    \/ n.kind \in {"MulDef", "SliceMulDef", "ProbeP"} /\ p = "factor"
+                    \/ n.kind \in {"MulDef", "MulKw", "SliceMulDef", "ProbeP"} /\ p = "factor"
 Default(n, p)    == IF n.kind = "SrcDef" THEN Num(42) ELSE IF n.kind = "ProbeP" THEN Num(1) ELSE Num(2)
 
 \* generated classes whose _process_logic takes **kwargs accept any configuration key
-KwargsAllowed(n) == n.kind \in (CtxKinds \ {"CtxBind"}) \cup SweepKinds
+KwargsAllowed(n) == n.kind \in (CtxKinds \ {"CtxBind", "FitM"}) \cup SweepKinds
 
 Configured(n, p) == p \in DOMAIN n.cfg
 UnknownParams(n) == IF KwargsAllowed(n) THEN {} ELSE (DOMAIN n.cfg) \ ParamNames(n)
@@ -95,12 +104,13 @@ InT(n) == IF n.kind \in SourceKinds THEN "none"
           ELSE IF n.kind \in CollInKinds THEN "coll" ELSE "any"
 
 \* "same" = the node passes its input type through
-OutT(n) == IF n.kind \in {"PSrc", "PSrcInj", "Touch", "Src", "SrcDef", "Src0", "Mul", "MulDef", "Add", "Sq", "CtxW", "CtxWBad", "Boom", "Abort", "Sum", "CtxWP", "IncIP"} THEN "float"
+OutT(n) == IF n.kind \in {"PSrc", "PSrcInj", "Touch", "Src", "SrcDef", "Src0", "Mul", "MulDef", "MulKw", "MulKwReq", "Add", "Sq", "CtxW", "CtxWBad", "Boom", "Abort", "Sum", "CtxWP", "IncIP"} THEN "float"
            ELSE IF n.kind \in {"SweepSrc", "SweepSrcCtx", "SweepMul", "SliceMul", "SliceMulDef", "SliceCtxW", "SweepCtxW"} THEN "coll"
            ELSE "same"
 
 Created(n) == CASE n.kind \in ProbeKinds             -> {n.k1}
                 [] n.kind \in {"Rename", "Template", "CtxBind"} -> {n.k2}
+                [] n.kind = "FitM"                    -> {FitKey(n)}
                 [] n.kind \in {"CtxW", "CtxWBad", "CtxWP", "SliceCtxW"} -> {"w"}     \* declared keys (CtxWBad writes another one)
                 [] n.kind = "SweepCtxW"              -> {"t_values", "w"}   \* the element's declared key + the sweep's own
                 [] n.kind = "PSrcInj"                -> {"b"}
@@ -144,7 +154,7 @@ Apply(n, data, ctx, arg) ==
     CASE n.kind \in {"Src", "SrcDef"} ->
             IF IsNum(arg["value"]) THEN Ok(Float(arg["value"].v), ctx) ELSE Bad("proc", data, ctx)
       [] n.kind = "Src0" -> Ok(Float(123), ctx)
-      [] n.kind \in {"Mul", "MulDef"} ->
+      [] n.kind \in {"Mul", "MulDef", "MulKw", "MulKwReq"} ->
             IF IsNum(arg["factor"]) THEN Ok(Float(data.v * arg["factor"].v), ctx) ELSE Bad("proc", data, ctx)
       [] n.kind = "Add" ->
             IF IsNum(arg["addend"]) THEN Ok(Float(data.v + arg["addend"].v), ctx) ELSE Bad("proc", data, ctx)
@@ -191,6 +201,10 @@ Apply(n, data, ctx, arg) ==
             IF arg[n.k1].t = "null" THEN Ok(data, ctx)             \* DeleteOfNoneIsNoOp
             ELSE IF ctx[n.k1] = Absent THEN Bad("proc", data, ctx) ELSE Ok(data, Set(ctx, n.k1, Absent))
       [] n.kind = "Template" -> Ok(data, Set(ctx, n.k2, Str(arg[n.k1])))
+      [] n.kind = "FitM" ->
+            IF arg["t_values"].t = "l" /\ arg["a"].t = "l"
+            THEN Ok(data, Set(ctx, FitKey(n), Num(SumSeq(arg["a"].items) + Len(arg["t_values"].items))))
+            ELSE Bad("proc", data, ctx)
       [] n.kind = "CtxBind" -> IF IsNum(arg["a"]) THEN Ok(data, Set(ctx, n.k2, Num(arg["a"].v + 1))) ELSE Bad("proc", data, ctx)
       [] n.kind \in {"SweepSrc", "SweepMul"} -> SweepOut(n, data, ctx, n.sw)
       [] n.kind = "SweepSrcCtx" ->
